@@ -6,6 +6,10 @@ package main
 // interleaved bytes in the log), splits the stream into requests, and answers them in arrival
 // order with a reply derived from the request (coq/DispConc.v: conc_reply describes the same
 // device).  A Read hands out the next unread reply as a whole.
+// It also records whether the library ever had two calls inside the same transport object at the
+// same time (Read / Write / Close / Flush / Set*Deadline), and whether a Close arrived between the
+// write of a request and the read of its reply: the client must carry out its exchanges and its
+// Close one at a time (C14_steps_by_holder / C14_one_at_a_time).
 
 import (
 	"encoding/binary"
@@ -13,7 +17,6 @@ import (
 	"os"
 	"runtime"
 	"sync"
-	"sync/atomic"
 	"time"
 
 	"github.com/aldas/go-modbus-client/packet"
@@ -28,8 +31,32 @@ type memConn struct {
 	replies [][]byte   // answers not yet read
 	closed  bool
 
-	inWrite  int32 // number of Write calls in progress
-	overlaps int32 // a Write started while another one was in progress
+	// calls made by the LIBRARY on this transport object (Read, Write, Close, Flush, Set*Deadline)
+	active   int // calls currently inside
+	overlaps int // a call entered while another one was inside: access to the transport not serialised
+	midClose int // Close entered between the write of a request and the read of its reply
+}
+
+// enter / exit bracket every library call; the yields let a second caller in, should the client
+// not exclude it, so that an overlap shows up as one
+func (c *memConn) enter(isClose bool) {
+	c.mu.Lock()
+	if c.active > 0 {
+		c.overlaps++
+	}
+	c.active++
+	if isClose && (len(c.replies) > 0 || len(c.pending) > 0) {
+		c.midClose++
+	}
+	c.mu.Unlock()
+	runtime.Gosched()
+}
+
+func (c *memConn) exit() {
+	runtime.Gosched()
+	c.mu.Lock()
+	c.active--
+	c.mu.Unlock()
 }
 
 func crc16le(b []byte) []byte {
@@ -112,10 +139,8 @@ func concFrameLen(kind int, w []byte) int {
 }
 
 func (c *memConn) Write(p []byte) (int, error) {
-	if atomic.AddInt32(&c.inWrite, 1) != 1 {
-		atomic.AddInt32(&c.overlaps, 1)
-	}
-	defer atomic.AddInt32(&c.inWrite, -1)
+	c.enter(false)
+	defer c.exit()
 	c.mu.Lock()
 	if c.closed {
 		c.mu.Unlock()
@@ -141,6 +166,8 @@ func (c *memConn) Write(p []byte) (int, error) {
 }
 
 func (c *memConn) Read(p []byte) (int, error) {
+	c.enter(false)
+	defer c.exit()
 	c.mu.Lock()
 	defer c.mu.Unlock()
 	if c.closed {
@@ -154,14 +181,41 @@ func (c *memConn) Read(p []byte) (int, error) {
 	return copy(p, r), nil
 }
 
+// Close also drops what the device had queued (a request in flight loses its reply)
 func (c *memConn) Close() error {
+	c.enter(true)
+	defer c.exit()
 	c.mu.Lock()
 	defer c.mu.Unlock()
 	c.closed = true
+	c.replies = nil
+	c.pending = nil
 	return nil
 }
 
+// Flush makes the transport a modbus.Flusher (exercised by the serial client)
+func (c *memConn) Flush() error {
+	c.enter(false)
+	defer c.exit()
+	c.mu.Lock()
+	defer c.mu.Unlock()
+	if c.closed {
+		return net.ErrClosed
+	}
+	return nil
+}
+
+// reopen is called by the HARNESS (the operator plugging the serial device in again), not by the
+// library: it only makes the port usable again
+func (c *memConn) reopen() {
+	c.mu.Lock()
+	c.closed = false
+	c.mu.Unlock()
+}
+
 func (c *memConn) deadline() error {
+	c.enter(false)
+	defer c.exit()
 	c.mu.Lock()
 	defer c.mu.Unlock()
 	if c.closed {
@@ -181,8 +235,8 @@ func (c *memConn) SetDeadline(t time.Time) error      { return c.deadline() }
 func (c *memConn) SetReadDeadline(t time.Time) error  { return c.deadline() }
 func (c *memConn) SetWriteDeadline(t time.Time) error { return c.deadline() }
 
-func (c *memConn) snapshot() (log []byte, overlaps int) {
+func (c *memConn) snapshot() (log []byte, overlaps, midClose int) {
 	c.mu.Lock()
 	defer c.mu.Unlock()
-	return append([]byte{}, c.log...), int(atomic.LoadInt32(&c.overlaps))
+	return append([]byte{}, c.log...), c.overlaps, c.midClose
 }
